@@ -405,18 +405,23 @@ class VSimpleQueue(VQueue):
 
 class LoggingDeque(collections.deque):
     """collections.deque whose append/popleft are logged (linearization points of SingleLane).
-    The operations happen under SingleLane's mutex, so they are not yield points themselves."""
+    In the code as it is the operations happen under SingleLane's mutex; they are nevertheless yield points, so that a
+    change that moves one of them out of the critical section is explored like any other unprotected access."""
     vname = None
 
     def append(self, x):
-        super().append(x)
         s = detsched.CURRENT
+        if s is not None and s.managed():
+            s.yield_point('dq.append')
+        super().append(x)
         if s is not None and s.managed():
             s.ev('dq_append', self.vname or '', x)
 
     def popleft(self):
-        x = super().popleft()
         s = detsched.CURRENT
+        if s is not None and s.managed():
+            s.yield_point('dq.popleft')
+        x = super().popleft()
         if s is not None and s.managed():
             s.ev('dq_popleft', self.vname or '', x)
         return x
